@@ -30,6 +30,7 @@ import sklearn.cluster as sk
 from tqdm.auto import tqdm  # progress bar
 import warnings
 import matplotlib.pyplot as plt
+import os  # OPTICOMLIB_VERIF: verification tracing guard
 
 from .typing import (
     electrical_signal,
@@ -54,6 +55,10 @@ from .utils import (
 )
 
 plt.rcParams["font.family"] = "serif"
+
+# Verification hook (inactive unless the environment variable OPTICOMLIB_VERIF=1 is set AND a tracer
+# callable is installed here): FIBER reports every split step as tracer(kind, h, x_length, A).
+_verif_tracer = None
 
 
 def PRBS(
@@ -1171,6 +1176,10 @@ def FIBER(
 
     x_length = h
 
+    _trace = _verif_tracer if (_verif_tracer is not None and os.environ.get("OPTICOMLIB_VERIF") == "1") else None
+    if _trace:
+        _trace("start", h, 0.0, A)
+
     if show_progress:
         barra_progreso = tqdm(total=100)
 
@@ -1180,6 +1189,8 @@ def FIBER(
         A = exp_NL * ifft(
             exp_L * fft(exp_NL * A)
         )  # Symmetric Split-Step Fourier Method
+        if _trace:
+            _trace("step", h, x_length, A)
 
         if show_progress:
             barra_progreso.update(100 * h / length)
@@ -1201,6 +1212,8 @@ def FIBER(
         exp_NL = np.exp(1j * gamma * (h / 2) * np.abs(A) ** 2)
         exp_L = np.exp(D_op * h)
         A = exp_NL * ifft(exp_L * fft(exp_NL * A))
+        if _trace:
+            _trace("last", h, length, A)
 
         if show_progress:
             barra_progreso.update(100 * h / length)
